@@ -359,7 +359,9 @@ def run_block(op, stmts, env, case):
             return res if len(res) > 1 else res[0]
 
         ins = [_typed(n, names[v - 1]["dt"], names[v - 1]["shape"]) for n, v in zip(intypes, b["ins"])]
-        return op.builder.subgraph(trace, inputs=ins, outputs=[ir.Value(name=n) for n in outnames], name=f"{kind}{k}")
+        # like the documentation's examples the author declares type and shape of the body's outputs
+        outs = [_typed(n, names[v - 1]["dt"], names[v - 1]["shape"]) for n, v in zip(outnames, b["res"])]
+        return op.builder.subgraph(trace, inputs=ins, outputs=outs, name=f"{kind}{k}")
 
     for s in stmts:
         k = s["k"]
